@@ -19,7 +19,7 @@ fn id_vector() -> BoxedStrategy<Vec<i32>> {
 
 /// labelled typed stacks (depth 0..4) so that loss / duplication / reordering is observable
 fn labelled_state() -> BoxedStrategy<StateSpec> {
-    let rec_atom = prop_oneof![3 => (0i32..50).prop_map(ItemSpec::Int), 2 => any::<bool>().prop_map(ItemSpec::Bool), 2 => (0i32..40).prop_map(|x| ItemSpec::Float(x as f32 + 0.5)), 1 => gen::ivec_small(3).prop_map(ItemSpec::IVec), 1 => gen::name_pool().prop_map(ItemSpec::Name), 1 => Just(ItemSpec::instr("NOOP"))];
+    let rec_atom = prop_oneof![3 => (0i32..50).prop_map(ItemSpec::Int), 2 => any::<bool>().prop_map(ItemSpec::Bool), 2 => (0i32..40).prop_map(|x| ItemSpec::Float(x as f32 + 0.5)), 1 => prop::sample::select(vec![f32::INFINITY, f32::NEG_INFINITY, f32::NAN, -0.0, f32::MAX]).prop_map(ItemSpec::Float), 1 => (0usize..4, 0usize..6).prop_map(|(c, d)| ItemSpec::Index(c, d)), 1 => gen::ivec_small(3).prop_map(ItemSpec::IVec), 1 => gen::name_pool().prop_map(ItemSpec::Name), 1 => Just(ItemSpec::instr("NOOP"))];
     let record = rec_atom.clone().prop_recursive(3, 10, 4, |inner| prop::collection::vec(inner, 0..=4).prop_map(ItemSpec::List));
     let code_item = prop_oneof![4 => prop::collection::vec(record.clone(), 0..=5).prop_map(ItemSpec::List), 1 => rec_atom];
     (
@@ -33,7 +33,8 @@ fn labelled_state() -> BoxedStrategy<StateSpec> {
             let mut s = StateSpec::default();
             s.bools = bools;
             s.ints = (0..ni).map(|i| 100 + 10 * i as i32 + (salt % 7) as i32).collect();
-            s.floats = (0..nf).map(|i| 0.25 + i as f32).collect();
+            // a fifth of the states hold non-finite floats (still distinguishable by position)
+            s.floats = (0..nf).map(|i| if salt % 5 == 0 { [f32::INFINITY, f32::NAN, f32::NEG_INFINITY, -0.0][i % 4] } else { 0.25 + i as f32 }).collect();
             s.names = (0..nn).map(|i| format!("nm{}", i)).collect();
             s.bvecs = (0..nbv).map(|i| (0..=i).map(|j| (salt >> j) & 1 == 1).collect()).collect();
             s.ivecs = (0..niv).map(|i| vec![1000 + i as i32; i + 1]).collect();
